@@ -51,9 +51,12 @@ func (a ival) empty() bool { return a.lo > a.hi }
 type absState struct {
 	facts map[int]ival
 	cache map[int]ival
+	ord   *ordState // order closure over comparison conjuncts (absorder.go)
 }
 
-func newAbs() *absState { return &absState{facts: map[int]ival{}, cache: map[int]ival{}} }
+func newAbs() *absState {
+	return &absState{facts: map[int]ival{}, cache: map[int]ival{}, ord: newOrd()}
+}
 
 func addOv(a, b int64) (int64, bool) {
 	c := a + b
@@ -311,6 +314,7 @@ func (s *absState) abool(t *term.Term) int {
 		if a.lo == a.hi && b.lo == b.hi && a.lo == b.lo {
 			return 1
 		}
+		return s.ord.cmp(t)
 	case term.OSLt, term.OSLe, term.OULt, term.OULe:
 		a, b := s.iv(t.Args[0]), s.iv(t.Args[1])
 		if a.empty() || b.empty() {
@@ -318,7 +322,7 @@ func (s *absState) abool(t *term.Term) int {
 		}
 		if t.Op == term.OULt || t.Op == term.OULe {
 			if a.lo < 0 || b.lo < 0 {
-				return 0
+				return s.ord.cmp(t)
 			}
 		}
 		strict := t.Op == term.OSLt || t.Op == term.OULt
@@ -337,6 +341,7 @@ func (s *absState) abool(t *term.Term) int {
 				return -1
 			}
 		}
+		return s.ord.cmp(t)
 	}
 	return 0
 }
